@@ -4,6 +4,7 @@ from __future__ import annotations
 import ast
 from typing import Dict, List, Optional, Set
 
+from ..calls import callgraph
 from ..cfg import cfg_of
 from ..facts import emission_sites, value_set
 from ..model import AnalysisError, Undecided, Fn, ancestors, parent, text, walk_fn
@@ -277,6 +278,17 @@ def rule_debug(run, prog):
             if isinstance(a, (ast.Break, ast.Continue)):
                 continue
             bad.append(a)
+        # ... and nothing in such a region calls a function of the package that changes state (a scope accessor that also
+        # accumulates line counts, a rule helper that records an identifier): printing must look, not touch
+        imp = _impure_functions(prog)
+        cg_ = callgraph(prog)
+        for c in cg_.calls_of.get(fn.key, []):
+            cn = _cfg_node_of_expr(g, c.node) if isinstance(c.node, ast.AST) else None
+            if cn is None or cn not in dep_nodes:
+                continue
+            hit = [t.key for t in c.targets if t.key in imp]
+            if hit and all(t.key in imp for t in c.targets):
+                bad.append(c.node)
         run.ob("R-16.1", f"{fn.key}::level-dependent-region", not bad,
                "statements that run only for some debug levels do more than print or abort: "
                + "; ".join(f"line {getattr(b, 'lineno', '?')}: {text(b, 50)}" for b in bad[:3]),
@@ -292,6 +304,47 @@ def rule_debug(run, prog):
                     writes.append((fn, n))
     run.ob("R-16.1", "context.py::Context::debug-written-once", len(writes) == 1 and writes[0][0].key == "context.py::Context.__init__",
            "the debug level is (re)written outside Context.__init__: " + ", ".join(f.key for f, _ in writes), None)
+
+
+_IMPURE = {}
+
+
+def _impure_functions(prog):
+    """Keys of the package's functions that change object state: an attribute store / augmented store / in-place mutator on an
+    attribute path, a diagnostic emission, or a call of such a function (transitively)."""
+    got = _IMPURE.get(id(prog))
+    if got is not None:
+        return got
+    cg_ = callgraph(prog)
+    direct = set()
+    for fn in prog.fns:
+        if fn.name in ("__init__", "__post_init__", "__new__"):
+            continue
+        for n in walk_fn(fn.node):
+            tg = n.targets if isinstance(n, ast.Assign) else [n.target] if isinstance(n, (ast.AugAssign, ast.AnnAssign)) else []
+            if any(isinstance(x, ast.Attribute) or (isinstance(x, ast.Subscript) and isinstance(x.value, ast.Attribute))
+                   for t in tg for x in (t.elts if isinstance(t, (ast.Tuple, ast.List)) else [t])):
+                direct.add(fn.key)
+            if isinstance(n, ast.Call) and isinstance(n.func, ast.Attribute):
+                if n.func.attr in ("append", "extend", "remove", "pop", "clear", "insert", "sort", "add", "update", "discard") \
+                        and isinstance(n.func.value, ast.Attribute):
+                    direct.add(fn.key)
+                if n.func.attr in ("new_error", "new_warning"):
+                    direct.add(fn.key)
+    imp = set(direct)
+    changed = True
+    while changed:
+        changed = False
+        for fn in prog.fns:
+            if fn.key in imp:
+                continue
+            for c in cg_.calls_of.get(fn.key, []):
+                if c.targets and any(t.key in imp for t in c.targets):
+                    imp.add(fn.key)
+                    changed = True
+                    break
+    _IMPURE[id(prog)] = imp
+    return imp
 
 
 def enclosing_test_or_stmt(n):
